@@ -216,7 +216,7 @@ def gen_history(r, n):
                     pending -= 1
         if r.random() < 0.55:
             ops.append(rand_ibtp(r))
-    return ops[:n + 4]
+    return pack_some(r, ops[:n + 4])
 
 
 def pack_some(r, ops, p=0.35):
